@@ -206,6 +206,16 @@ def run_case(case, tier):
         if first:
             recs = first + recs
             classes.append("ions-written-before-the-protein")
+    if case["kind"] == "built" and rng.random() < 0.25:
+        # a model-built ligand: bonds exactly along the coordinate axes (in the lattice poses every one of
+        # +-x, +-y, +-z occurs); its hydrogens are built around a direction perpendicular to such a bond
+        from .. import fragments
+        fname = rng.choice(("methanol", "methanethiol", "methylamine", "fluoromethane", "chloromethane", "acetonitrile",
+                            "ethylenediamine", "dimethylamine", "acetate"))
+        frag, _e, _d = fragments.place_near(recs, fname, rng, dist_A=rng.choice((3.5, 5.0, 8.0)), resnum=960, min_clear_A=3.0, lattice=True)
+        if frag:
+            recs = recs + frag
+            classes.append("axis-aligned-ligand")
     opts = [case["opt"]] if case["opt"] else []
     rot, trans, tkind, moved = motion.random_pose(rng, recs)
     back_key, inv, tinv = motion.key_mapper(rot, trans)
